@@ -427,10 +427,17 @@ Definition i04 : s04 := mk04 [] false [] [] [] [] [] [] [] [].
 Definition cnt_of (s : s04) (a : N) : Z := match nget (o_cnt s) a with Some z => z | None => 0 end.
 Definition lst_of (l : list (N * list N)) (a : N) : list N := match nget l a with Some x => x | None => [] end.
 
+(* the slab-children obligations of a parent that was already notified end with the Stakker instance, like [o_must]:
+   "the whole ownership tree terminates in the same run" is about the runs of the runtime in which the parent was
+   terminated; a parent notified before a Stakker is dropped / replaced is a Zombie (never asked for its slab length
+   again), so its entry is simply forgotten at ENew / EDropBegin *)
+Definition live_kids (s : s04) : list (N * list N) :=
+  filter (fun pk => negb (nmem (fst pk) (o_notified s))) (o_kids s).
+
 Definition step04 (s : s04) (e : ev) : option s04 :=
   match e with
-  | ENew _ => Some (mk04 (o_cnt s) true [] (o_notified s) (o_atret s) (o_tgt s) (o_pend s) (o_snap s) (o_kids s) (o_slabkid s))
-  | EDropBegin => Some (mk04 (o_cnt s) false [] (o_notified s) (o_atret s) (o_tgt s) (o_pend s) (o_snap s) (o_kids s) (o_slabkid s))
+  | ENew _ => Some (mk04 (o_cnt s) true [] (o_notified s) (o_atret s) (o_tgt s) (o_pend s) (o_snap s) (live_kids s) (o_slabkid s))
+  | EDropBegin => Some (mk04 (o_cnt s) false [] (o_notified s) (o_atret s) (o_tgt s) (o_pend s) (o_snap s) (live_kids s) (o_slabkid s))
   | EOwnNew a => Some (mk04 (nset (o_cnt s) a (cnt_of s a + 1)) (o_alive s) (o_must s) (o_notified s) (o_atret s) (o_tgt s) (o_pend s) (o_snap s) (o_kids s) (o_slabkid s))
   | EOwnDrop a =>
       let c := cnt_of s a - 1 in
